@@ -301,12 +301,13 @@ class Eval:
             a, b = coerce_to(a, INT), coerce_to(b, INT)
         if a.t not in (INT, REAL) or b.t != a.t:
             raise Unsupported(f"binop {type(op).__name__} on {a.t},{b.t}: {ast.unparse(n)[:50]}")
-        if isinstance(op, ast.Add):
-            return V(a.t, a.z + b.z)
-        if isinstance(op, ast.Sub):
-            return V(a.t, a.z - b.z)
-        if isinstance(op, ast.Mult):
-            return V(a.t, a.z * b.z)
+        if isinstance(op, (ast.Add, ast.Sub, ast.Mult)):
+            r = a.z + b.z if isinstance(op, ast.Add) else (a.z - b.z if isinstance(op, ast.Sub) else a.z * b.z)
+            if a.t == REAL and not self.spec and getattr(self.ex, "uses_inf", False):
+                # A2: arithmetic on finite floats stays finite (no overflow to +-inf)
+                fin = lambda z: z3.And(z != INF, z != -INF)
+                self.st.pc.append(z3.Implies(z3.And(fin(a.z), fin(b.z)), z3.And(r < INF, r > -INF)))
+            return V(a.t, r)
         if isinstance(op, ast.Div):
             self.ob("div0", b.z != 0, n)
             ar = a.z if a.t == REAL else z3.ToReal(a.z)
